@@ -59,6 +59,14 @@ Step(c, s, row) ==
             ELSE <<[s EXCEPT !.base = nb],
                    BoolV((\E k \in DOMAIN row : ~skip(k) /\ (k \notin DOMAIN s.base \/ ~NumEq(s.base[k], row[k])))
                          \/ (\E k \in DOMAIN s.base : k \notin DOMAIN row /\ ~(c.ign = 1 /\ IsNull(s.base[k]))))>>
+    \* had_changed(ign, c1, c2, ...): the listed columns compared one by one with their baselines; with ign a NULL column neither
+    \* counts as changed nor replaces its baseline value, WHEREVER it stands in the list (the first row is a change and is the baseline as it is)
+    [] c.fn = "had_changed_cols" ->
+         LET K == {c.cols[i] : i \in 1..Len(c.cols)}
+             skip(k) == c.ign = 1 /\ IsNull(Col(row, k))
+         IN IF s.first THEN <<[s EXCEPT !.first = FALSE, !.base = [k \in K |-> Col(row, k)]], BoolV(TRUE)>>
+            ELSE <<[s EXCEPT !.base = [k \in K |-> IF skip(k) THEN s.base[k] ELSE Col(row, k)]],
+                   BoolV(\E k \in K : ~skip(k) /\ ~NumEq(s.base[k], Col(row, k)))>>
     [] c.fn = "changed_col" ->
          IF c.ign = 1 /\ IsNull(v) THEN <<s, Null>>
          ELSE <<[s EXCEPT !.val = v, !.has = TRUE], IF ~s.has \/ ~NumEq(s.val, v) THEN v ELSE Null>>
